@@ -404,7 +404,51 @@ func genPriv(r *core.Rand) []byte {
 
 // highCandidate returns a 32-byte value >= n.
 func highCandidate(r *core.Rand) []byte {
-	switch r.Intn(4) {
+	switch r.Intn(7) {
+	case 4, 5, 6:
+		// agrees with n in its first j bytes, is larger in the unit (1, 2, 4 or 8 bytes wide) that
+		// follows and arbitrary behind it: comparisons done word by word, signed, or from the
+		// wrong end only go wrong for such values
+		nb := ref.Pad32(ref.SM2N)
+		for try := 0; try < 64; try++ {
+			w := r.PickInt(1, 2, 4, 8)
+			j := r.Intn(32/w) * w
+			b := append([]byte{}, nb...)
+			unit := b[j : j+w]
+			switch r.Intn(4) {
+			case 0:
+				for i := range unit {
+					unit[i] = 0xff
+				}
+			case 1:
+				unit[0] |= 0x80
+			case 2:
+				for i := w - 1; i >= 0; i-- { // + 1
+					unit[i]++
+					if unit[i] != 0 {
+						break
+					}
+				}
+			default:
+				r.Fill(unit)
+			}
+			switch tail := b[j+w:]; r.Intn(4) {
+			case 0:
+				r.Fill(tail)
+			case 1:
+				for i := range tail {
+					tail[i] = 0
+				}
+			case 2:
+				for i := range tail {
+					tail[i] = 0xff
+				}
+			}
+			if ref.Int(b).Cmp(ref.SM2N) >= 0 {
+				return b
+			}
+		}
+		return nb
 	case 0:
 		return ref.Pad32(ref.SM2N)
 	case 1:
